@@ -1031,6 +1031,45 @@ class LcGen(GovGen):
                 self.ops.append("restart")
                 self.tags.add("restart")
 
+    def scripted_rule_update_under_freeze(self):
+        """the master rule of an appchain is updated (approved or rejected) while the appchain is frozen (or being activated): the
+        rule update pauses and un-pauses the chain by its own cascade, which must not lift the approved freeze: the chain's
+        services stay unusable; read back and probed, before and after a restart"""
+        r = self.r
+        # c3 is the chain of the world that has a second bindable rule (the accept-everything rule next to its own)
+        c = "c3"
+        mine = [x for x in SVC if x.startswith(c + ":")]
+        self.submit(r.choice(ADMINS), f"appchain FreezeAppchain s:{c} s:reason", "appchain-freeze", "appchain", c)
+        ref, kind, mod, obj = self.props[-1]
+        self.vote_all(ref, mod, obj, "approve")
+        for x in mine:
+            self.observe(x)
+        self.submit(f"ca{c[1]}", f"rule UpdateMasterRule s:{c} s:{HAPPY} s:reason", "rule-update", "rule", c)
+        ref, kind, mod, obj = self.props[-1]
+        for x in mine:
+            self.observe(x)
+        ballot = r.choice(["approve", "approve", "reject"])
+        for v in ["adm0", "adm1", "adm2"]:
+            self.ops.append(f"block bvm {v} gov Vote s:{ref} s:{ballot} s:r")
+        self.ops.append(f"q prop {ref}")
+        for x in mine:
+            self.observe(x)
+        self.tags.add(f"rule-update-under-freeze:{ballot}")
+        other = "c4:s1"
+        for rnd in range(2):
+            for x in mine:
+                for f, t in ((x, other), (other, x)):
+                    i = self.idx.get((f, t), 1)
+                    self.observe(f)
+                    self.observe(t)
+                    self.ops.append(f"block ibtp ca{f[1]} {f} {t} {i} req 0 - ok")
+                    self.observe(f)
+                    self.observe(t)
+                    self.idx[(f, t)] = i + 1
+            if rnd == 0:
+                self.ops.append("restart")
+                self.tags.add("restart")
+
     def late_vote(self):
         if not self.pending:
             return self.govern()
@@ -1065,6 +1104,8 @@ def gen_c16(rng, n, tier):
             g.scripted_reopened_under_freeze()
         elif k0 < 0.82:
             g.scripted_logout_of_activating_chain()
+        elif k0 < 0.9:
+            g.scripted_rule_update_under_freeze()
         for _ in range(r.randint(5, 14)):
             k = r.random()
             if k < 0.5:
